@@ -462,7 +462,7 @@ func ancestorLemma(p *Program, call *ssa.Call) bool {
 var reviewedLoops = map[string]string{
 	// function -> condition of the reviewed loop, with the termination argument
 	"calculateHashes|row <= totalRows": "every iteration consumes one element of toProve/nextProves (checked: CONSUME) and appends at most one parent one row higher",
-	"inForest|pos & marker != 0":         "pos < mask has a zero bit below the marker; each iteration shifts it one place towards the marker",
+	"inForest|pos & marker != 0":       "pos < mask has a zero bit below the marker; each iteration shifts it one place towards the marker",
 }
 
 type loopCls struct {
